@@ -103,10 +103,43 @@ def mk_table(entries):
     return Agg('struct', 'UnionFind', None, [VecV([tup(some(e), IntV(i, 32, 0), IntV(0, 8, 0)) for i, e in enumerate(entries)])])
 
 
+def struct_fields(name, relpath='crates/ide/src/ty/infer.rs'):
+    """field names (declaration order) and types of `struct <name>` in the current source"""
+    import os
+    src = open(os.path.join(os.environ.get('VERIF_REPO', '/repo'), relpath), encoding='utf-8').read()
+    m = re.search(r'struct %s(?:<[^>]*>)?\s*\{(.*?)\n\}' % name, src, flags=re.S)
+    body_ = re.sub(r'//[^\n]*', '', m.group(1))
+    return re.findall(r'^\s*(?:pub(?:\([^)]*\))?\s+)?(\w+)\s*:\s*([^\n]+?),?\s*$', body_, flags=re.M)
+
+
+def infer_ctx(given, opaque=Opaque):
+    """InferCtx value with the fields in declaration order; fields not given: Vec -> empty, HashMap -> empty, else opaque"""
+    vals = []
+    for fname, fty in struct_fields('InferCtx'):
+        if fname in given:
+            vals.append(given[fname])
+        elif fty.startswith('Vec<'):
+            vals.append(VecV([]))
+        elif fty.startswith('HashMap<'):
+            vals.append(MapV())
+        else:
+            vals.append(opaque(fname))
+    return Agg('struct', 'InferCtx', None, vals)
+
+
+def body_ctx():
+    from . import scopes
+    vals = []
+    for fname, fty in struct_fields('BodyCtx'):
+        vals.append(scopes.ArenaMapV() if fty.startswith('ArenaMap<') else MapV())
+    names = [f for f, _ in struct_fields('BodyCtx')]
+    return Agg('struct', 'BodyCtx', None, vals), names.index('pattern_to_ty'), names.index('expr_to_ty')
+
+
 def mk_ctx(table):
     cell = [table]
     # InferCtx { db, body_ctx, idx, fn_id, resolver, group, body, table }: only idx and table are touched by the unifier
-    ctx = Agg('struct', 'InferCtx', None, [Opaque('db'), Opaque('body_ctx'), IntV(100, 32, 0), Opaque('fn_id'), Opaque('resolver'), Opaque('group'), Opaque('body'), RefV(cell, 0)])
+    ctx = infer_ctx({'idx': IntV(100, 32, 0), 'table': RefV(cell, 0)})
     return ctx, cell
 
 
@@ -418,10 +451,10 @@ class CallSpec:
         exprs.append(E('Call', [scopes.idx(0), VecV([tup(lab(labels[i]), scopes.idx(1 + i)) for i in range(k)])]))
         bodyv = Agg('struct', 'Body', None, [scopes.ArenaV([]), scopes.ArenaV(exprs), VecV([]), none(), scopes.idx(k + 1)])
         cell = [mk_table([])]
-        bctx = Agg('struct', 'BodyCtx', None, [scopes.ArenaMapV(), scopes.ArenaMapV(), MapV(), MapV()])
-        ctx = Agg('struct', 'InferCtx', None, [Opaque('db'), bctx, IntV(100, 32, 0), Opaque('fn_id'), Opaque('resolver'), Opaque('group'), RefV([bodyv], 0), RefV(cell, 0)])
+        bctx, pi, ei = body_ctx()
+        ctx = infer_ctx({'body_ctx': bctx, 'idx': IntV(100, 32, 0), 'body': RefV([bodyv], 0), 'table': RefV(cell, 0)})
         r = it.run_body(body(r'^ty::infer::<impl at [^>]*>::infer_expr$'), [RefV([ctx], 0), scopes.idx(k + 1)])
-        e2t = bctx.fields[1].m
+        e2t = bctx.fields[ei].m
         bad = []
         what = '_(%s)' % ', '.join(('%s: ' % l if l else '') + ('_' if h else '1') for l, h in zip(labels, holes))
         fr, fe = entry_of(it, cell, e2t[0].fields[0].v)
@@ -473,6 +506,118 @@ class CallSpec:
 
 def call_factory(k):
     return CallSpec(k)
+
+
+class CaseTotalSpec:
+    """C10, "side tables indexed by expression/pattern id": InferCtx::infer_expr (real MIR, real table) on  case s1..sm { p1,..,pn -> e }
+    built as arena data, m and n chosen by the solver (also n != m, which the parser accepts).  Afterwards every expression and every
+    pattern of the body must have an entry in expr_to_ty / pattern_to_ty: InferenceResult::{ty_for_expr, ty_for_pattern} INDEX these
+    maps (hover, highlighting, completion), so a missing entry is a panic of the next query."""
+
+    def make_interp(self):
+        from . import scopes
+        it = W.interp('ide')
+        install(it); scopes.install(it)
+        self.m = z3.BitVec('subjects', 8); self.n = z3.BitVec('patterns', 8); self.k = z3.BitVec('kind', 8)
+        it.solver.add(z3.UGE(self.m, 1), z3.ULE(self.m, 2), z3.UGE(self.n, 1), z3.ULE(self.n, 3), z3.ULE(self.k, 1))
+        return it
+
+    def run_path(self, it):
+        from . import scopes
+        m = it.choose([(self.m == i, i) for i in (1, 2)]); n = it.choose([(self.n == i, i) for i in (1, 2, 3)])
+        kind = it.choose([(self.k == 0, 'Variable'), (self.k == 1, 'Hole')])
+        E = lambda variant, fields: Agg('enum', 'def::module::Expr', variant, fields)
+        P = lambda variant, fields: Agg('enum', 'def::module::Pattern', variant, fields)
+        exprs = [E('Literal', [IntV(0, 16, 0)]) for _ in range(m)] + [E('Literal', [IntV(0, 16, 0)])]
+        pats = [P('Variable', [scopes.smol(StrV('v%d' % i))]) if kind == 'Variable' else P('Hole', []) for i in range(n)]
+        clause = Agg('struct', 'Clause', None, [VecV([scopes.idx(i) for i in range(n)]), scopes.idx(m)])
+        exprs.append(E('Case', [VecV([scopes.idx(i) for i in range(m)]), VecV([clause])]))
+        bodyv = Agg('struct', 'Body', None, [scopes.ArenaV(pats), scopes.ArenaV(exprs), VecV([]), none(), scopes.idx(m + 1)])
+        cell = [mk_table([])]
+        bctx, pi, ei = body_ctx()
+        ctx = infer_ctx({'body_ctx': bctx, 'idx': IntV(100, 32, 0), 'body': RefV([bodyv], 0), 'table': RefV(cell, 0)})
+        it.run_body(body(r'^ty::infer::<impl at [^>]*>::infer_expr$'), [RefV([ctx], 0), scopes.idx(m + 1)])
+        p2t, e2t = bctx.fields[pi].m, bctx.fields[ei].m
+        what = 'case %s { %s -> 1 }' % (', '.join(['1'] * m), ', '.join(('v%d' % i if kind == 'Variable' else '_') for i in range(n)))
+        bad = []
+        miss_p = [i for i in range(n) if i not in p2t]; miss_e = [i for i in range(len(exprs)) if i not in e2t]
+        if miss_p:
+            bad.append('C10: after inferring `%s` pattern(s) %s have no type entry: InferenceResult::ty_for_pattern indexes the map and panics on the next hover / highlight of that binder' % (what, miss_p))
+        if miss_e:
+            bad.append('C10: after inferring `%s` expression(s) %s have no type entry (ty_for_expr indexes the map)' % (what, miss_e))
+        rec = {'cls': 'total' if not bad else 'violation', 'ok': not bad, 'sample': {'program': what}}
+        if bad:
+            rec.update({'why': bad, 'cex': {'subjects': m, 'patterns': n, 'pattern_kind': kind, 'program': 'fn f() { %s }' % what.replace('v0', 'a').replace('v1', 'b').replace('v2', 'c')}})
+        return rec
+
+    def on_panic(self, it, e):
+        return {'cls': 'panic:' + e.kind, 'ok': False, 'why': ['C10: inference of a case expression panics: %s' % e], 'cex': {'panic': str(e), 'stack': list(e.stack[-3:])}}
+
+
+def case_factory():
+    return CaseTotalSpec()
+
+
+class AliasCycleSpec:
+    """C10, "self-referential" workspaces: InferCtx::make_ty_from_typeref (real MIR) on a type name that resolves to a type alias, over every
+    alias graph of n aliases whose bodies name another alias or Int (targets chosen by the solver).  The expansion must return:
+    no unbounded recursion (call depth > 400 is reported as stack overflow), no panic."""
+
+    def __init__(self, n):
+        self.n = n
+
+    def make_interp(self):
+        from . import scopes
+        it = W.interp('ide', uc=True)
+        it.allow = [r'^ty::infer::<impl at [^>]*>::(make_ty_from_typeref|new_ty_var|unify_var|unify_var_ty|unify|try_unify_var)$', r'^ty::infer::<impl at [^>]*>::make_ty_from_typeref::\{closure#\d+\}$',
+                    r'^ty::infer::<impl at [^>]*>::intern$', r'^ty::union_find::']
+        install(it); scopes.install(it)
+        n = self.n
+        self.t = [z3.BitVec('target%d' % i, 8) for i in range(n)]
+        for t in self.t:
+            it.solver.add(z3.ULE(t, n))            # n = Int
+        spec = self
+        tref = lambda name: Agg('enum', 'def::module::TypeRef', 'Adt', [none(), scopes.smol(StrV(name)), VecV([])])
+        alias = lambda i: Agg('struct', 'TypeAlias', None, [Agg('struct', 'TypeAliasId', None, [IntV(i, 32, 0)])])
+
+        def resolve_type(it_, c, a):
+            nm = models.deref(a[1]); nm = nm.fields[0].s if isinstance(nm, Agg) else nm.s
+            if nm.startswith('A'):
+                return some(Agg('enum', 'ResolveResult', 'TypeAlias', [alias(int(nm[1:]))]))
+            return none()
+
+        def alias_data(it_, c, a):
+            v = models.deref(a[0]); i = v.fields[0].fields[0].v
+            if i not in spec.chosen:
+                spec.chosen[i] = it_.choose([(spec.t[i] == j, j) for j in range(n + 1)])
+            j = spec.chosen[i]
+            return Agg('struct', 'TypeAliasData', None, [scopes.smol(StrV('A%d' % i)), some(tref('A%d' % j if j < n else 'Int')), VecV([]), LazyV('vis'), LazyV('ptr')])
+        it.models['Resolver::resolve_type'] = resolve_type
+        it.models['TypeAlias::data'] = alias_data
+        it.models['<Arc as Deref>::deref'] = lambda it_, c, a: a[0]
+        self.tref = tref
+        return it
+
+    def run_path(self, it):
+        from . import scopes
+        self.chosen = {}
+        cell = [mk_table([])]
+        bctx, pi, ei = body_ctx()
+        ctx = infer_ctx({'body_ctx': bctx, 'idx': IntV(100, 32, 0), 'table': RefV(cell, 0)}, opaque=LazyV)
+        env = MapV()
+        r = it.run_body(body(r'^ty::infer::<impl at [^>]*>::make_ty_from_typeref$'), [RefV([ctx], 0), self.tref('A0'), RefV([env], 0)])
+        return {'cls': 'expanded:%s' % sorted(self.chosen.items()), 'ok': True, 'sample': {'aliases': {('A%d' % i): ('A%d' % j if j < self.n else 'Int') for i, j in self.chosen.items()}}}
+
+    def on_panic(self, it, e):
+        g = {('A%d' % i): ('A%d' % j if j < self.n else 'Int') for i, j in self.chosen.items()}
+        prog = ''.join('type %s = %s\n' % (a, b) for a, b in sorted(g.items())) + 'fn f(u: A0) { u }\n'
+        if e.kind in ('stack-overflow', 'depth'):
+            return {'cls': 'violation', 'ok': False, 'why': ['C10: expanding the type alias graph %s never returns (unbounded recursion in make_ty_from_typeref): %s' % (g, str(e)[:120])], 'cex': {'aliases': g, 'program': prog}}
+        return {'cls': 'panic-under-havoc', 'ok': True}
+
+
+def alias_factory(n):
+    return AliasCycleSpec(n)
 
 
 class MoveSpec:
